@@ -36,7 +36,9 @@ CHECKS = {
             "Same histories, skewed to immutable/never (70%); at every Filter the harness snapshots what the pod's key and "
             "its app/pool reserve hold, at the matching successful Bind the binding annotation must name exactly the held IP "
             "(per requested range), and a deployment/pool pod with a reserve must take one of the reserved IPs; at bind time a "
-            "pod whose filter-time hand-over was undone (it holds nothing although a routable reserve exists) must not get a fresh IP.",
+            "pod whose filter-time hand-over was undone (it holds nothing although a routable reserve exists) must not get a fresh IP. "
+            "Every 4th step, if a filter, is re-run on clones with one cleanly failing API call per call index; a filter that still reports "
+            "success is followed by the scheduler's bind and judged by the same stickiness rules.",
             "runtime monitoring: before/after state comparison around filter and bind in simulated histories",
             "3 (C02)", SIM_NOTE),
     "C03": ("exploration",
@@ -149,7 +151,7 @@ CHECKS = {
             "real /cni handler for pods with host ports, daemon restart (start-up pass), the GC clean-port callback, one failing "
             "iptables operation per step position followed by kubelet DEL / repeated DEL / GC clean; NAT dump, this process's "
             "sockets (/proc/net) and port-state files must show nothing of a torn-down or failed pod and everything of the others.",
-            "runtime monitoring: state-comparison laws over a strict kernel model + real socket probes",
+            "runtime monitoring: state-comparison laws over a strict kernel model + real socket probes; concurrent open/close stress judged by a quiescent-point socket invariant",
             "3 (C14)", "Trusted: harness/fakes/iptables.go (calibrated against iptables 1.8.9 nf_tables in the thorough tier)."),
     "C15": ("exploration",
             "Real PolicyManager (hook constructor) over strict ipset/iptables fakes and harness-written informer caches: after "
